@@ -26,7 +26,7 @@ def get_parser(name='smiV2'):
 
 
 class Tok(object):
-    __slots__ = ('type', 'value', 'lineno', 'lexpos')
+    __slots__ = ('type', 'value', 'lineno', 'lexpos', 'lexer')
 
     def __init__(self, type, value, lineno, lexpos=0):
         self.type = type
